@@ -1191,18 +1191,18 @@ def run_case_svg(case):
     # copy each time, and its dictionary back as it was
     pts2 = [Coord.Pt(Coord.Dim(7, 'px'), Coord.Dim(8, 'px')), Coord.Pt(Coord.Dim(9, 'px'), Coord.Dim(10, 'px')), Coord.Pt(Coord.Dim(11, 'px'), Coord.Dim(12, 'px'))]
 
-    def shared_doc(share):
+    def shared_doc(share, points=list):
         o = io.StringIO()
         mine = dict(attrs)
         a = (lambda: mine) if share else (lambda: dict(attrs))
         with SVGWriter.SVGWriter(o, Coord.Box(dim(8.5), dim(11))) as w:
-            with SVGWriter.SVGPolyline(w, pts, a()):
+            with SVGWriter.SVGPolyline(w, points(pts), a()):
                 pass
-            with SVGWriter.SVGPolyline(w, pts2, a()):
+            with SVGWriter.SVGPolyline(w, points(pts2), a()):
                 pass
             with SVGWriter.SVGLine(w, pt, Coord.Pt(dim(2), dim(3)), a()):
                 pass
-            with SVGWriter.SVGPolygon(w, pts2, a()):
+            with SVGWriter.SVGPolygon(w, points(pts2), a()):
                 pass
             with SVGWriter.SVGRect(w, pt, box, a()):
                 pass
@@ -1217,6 +1217,8 @@ def run_case_svg(case):
     try:
         d_fresh, _ = shared_doc(False)
         d_shared, mine = shared_doc(True)
+        # the points given as a tuple and as a one-shot iterator (a generator over the data): the same document
+        d_other = [shared_doc(False, points=fn)[0] for fn in (tuple, iter)]
     except Exception as err:  # noqa
         return [({'kind': 'writer_raises', 'exc': type(err).__name__, 'op': 'svg_shared_attrs', 'writer': 'SVGWriter'},
                  'SVGWriter: %s: %s' % (type(err).__name__, err))], h64(('raise', type(err).__name__)), 'raises'
@@ -1240,6 +1242,10 @@ def run_case_svg(case):
                         % (len(on_disc), len(o.getvalue().encode('utf-8')), on_disc[-60:])))
     except Exception as err:  # noqa
         bad.append(({'kind': 'writer_raises', 'exc': type(err).__name__, 'op': 'svg_to_path', 'writer': 'SVGWriter'}, 'SVGWriter to a path: %s: %s' % (type(err).__name__, err)))
+    for how, d in zip(('tuple', 'iterator'), d_other):
+        if d != d_fresh:
+            bad.append(({'kind': 'svg_points_depend_on_container', 'how': how, 'writer': 'SVGWriter'},
+                        'points given as a %s: the document differs from the one written from a list:\n%s\n-- from a list:\n%s' % (how, d[-500:], d_fresh[-500:])))
     if d_shared != d_fresh or mine != attrs:
         bad.append(({'kind': 'svg_attributes_depend_on_earlier_elements', 'writer': 'SVGWriter'},
                     'one attribute dictionary %r passed to every element: it comes back as %r and the document differs from the one '
